@@ -64,11 +64,38 @@ def _poly_of(raw):
     raise TypeError(raw["t"])
 
 
+# --------------------------------------------------------------------- exact (lattice) mode
+def on_lattice(values, q=0.25, bound=2.0 ** 20):
+    """All numbers are small multiples of q: sums and differences of them are exact in binary floating point."""
+    for v in values:
+        v = float(v)
+        if abs(v) > bound or (v / q) != round(v / q):
+            return False
+    return True
+
+
+def lattice_ring(ring):
+    return on_lattice([c for pt in np.asarray(ring, dtype=float) for c in pt])
+
+
+def lattice_raw(raw):
+    """Shapes whose exported geometry both sides compute without rounding: axis-parallel rectangles and polygons on
+    the lattice."""
+    if raw["t"] == "rect":
+        return raw.get("o", 0.0) == 0.0 and on_lattice([raw["l"] / 2, raw["w"] / 2] + list(raw.get("c", [0.0, 0.0])))
+    if raw["t"] == "poly":
+        return on_lattice([c for pt in raw["v"] for c in pt])
+    return False
+
+
 # --------------------------------------------------------------------- point membership
-def point_in_ring(poly: SPolygon, ring, p):
-    """True / False / None for 'polygon (boundary included) contains p'."""
+def point_in_ring(poly: SPolygon, ring, p, exact=False):
+    """True / False / None for 'polygon (boundary included) contains p'.  exact=True (all coordinates on the
+    lattice): no don't-care band, boundary points are decided."""
     x, y = float(p[0]), float(p[1])
     pt = SPoint(x, y)
+    if exact:
+        return bool(poly.intersects(pt))
     for vx, vy in np.asarray(ring, dtype=float):
         if vx == x and vy == y:
             return True  # exactly a vertex of the ring: decided, boundary counts as contained
@@ -111,9 +138,12 @@ def point_in_shape(raw, p):
 
 
 # --------------------------------------------------------------------- shape / lanelet intersection
-def shape_meets_polygon(raw, poly: SPolygon):
-    """True / False / None for 'shape (closed set) intersects the polygon (closed set)'."""
+def shape_meets_polygon(raw, poly: SPolygon, exact=False):
+    """True / False / None for 'shape (closed set) intersects the polygon (closed set)'.  exact=True: the caller
+    has established that shape and polygon live on the lattice; touching counts as intersecting and is decided."""
     t = raw["t"]
+    if exact and t in ("rect", "poly"):
+        return bool(_poly_of(raw).intersects(poly))
     if t == "group":
         res = [shape_meets_polygon(s, poly) for s in raw["shapes"]]
         if any(r is True for r in res):
